@@ -6,11 +6,18 @@ Streams
             which lists, their `visible` flags and the project page lists, compared exactly with the
             Lean model (`c05.prune`); the variant (file-level display inherited or not) is decided here.
             Property oracle on the surviving object tree: survivors == `selected` (Python spec).
+            The generated comments carry `[[name]]` links (to entities of the same scope, of enclosing scopes,
+            of USEd modules, anywhere; selected or not); each comment is converted by the project's real
+            Markdown instance with the entity as context.  Correspondence: page each link points at == Lean
+            `linksOf` (variant "link extension tests that the page is written" decided here).  Oracle: a link
+            in a displayed comment points, if anywhere, at the page of a selected entity.
   e2e     : `ford.main` in-process (search on, graphs off in quick); every *.html and
             search/search_database.json is scanned for the per-entity tracer words.
             Correspondence: set of tracers found anywhere == model `shownIds`, page files == model pages.
             Property oracle: no tracer of an unselected entity anywhere; a selected entity's tracer on
-            its parent's page; own page exists; every internal href resolves to an existing page.
+            its parent's page; own page exists; every internal href resolves to an existing page; every
+            rendered occurrence of a generated `[[...]]` link (attributed to its comment by a marker word)
+            points at an existing page of a selected entity.
 """
 from __future__ import annotations
 
@@ -122,6 +129,72 @@ def classify(P, eid, what, variant_is_asis=True):
     return None
 
 
+def referrer_of(P, i, sel, ref):
+    """the unselected procedure displayed by reference whose description contains the comment of entity `i`
+    (the procedure itself or one of its dummy arguments), or None"""
+    byid = G.index(P)
+    if i in sel or i not in ref:
+        return None
+    e = byid[i]
+    if e["kind"] == "arg":
+        e = byid[e["_parent"]]
+    return e if e["kind"] in G.PROC_KINDS else None
+
+
+def classify_link(P, ctx, k, page, sel, ref, incl_src=True):
+    """Known-finding class of `link k of the comment of ctx points at `page`, which is no page of a selected
+    entity`, or None."""
+    byid = G.index(P)
+    e = byid[ctx]
+    tid = e["link_ids"][k]
+    # (0) file pages are switched off, the link extension does not know
+    if not incl_src and byid[tid]["kind"] == "file" and page == page_of(byid[tid]):
+        return "C05-link-to-source-file-page-not-written"
+    # (1) a binding / final procedure naming the procedure it binds: `bindings` / `procedure` hold the
+    #     procedure object itself, whether or not it was selected
+    if e["kind"] in ("boundproc", "finalproc") and any(r not in sel and page == page_of(byid[r]) for r in e["refs"]):
+        return "C05-link-to-unselected-bound-procedure"
+    # (2) the comment of an unselected procedure that is displayed by reference, naming one of that
+    #     procedure's own children (its lists were never pruned; its page does not exist)
+    r = referrer_of(P, ctx, sel, ref)
+    if r is not None and page == page_of(r):
+        t = byid[tid]
+        cur = t
+        while cur is not None and cur is not r:
+            cur = byid.get(cur["_parent"])
+        if cur is r:
+            return "C05-link-inside-unselected-referenced-procedure"
+    return classify(P, tid, "")
+
+
+def allowed_pages(P, sel, files=True):
+    """pages of the selected entities (what a link may point at)"""
+    byid = G.index(P)
+    return {page_of(byid[i]) for i in sel if has_own_page(byid[i], byid) and (files or byid[i]["kind"] != "file")}
+
+
+def oracle_links(P, links, sel, ref):
+    """Property oracle for the links (from the statement: "links never point at pages of unselected entities"):
+    every link written in a comment that is displayed - the comment of a selected entity, or of a procedure /
+    dummy argument displayed by reference - points, if anywhere, at the page of a selected entity.
+    -> [(ctx, k, why)]"""
+    byid = G.index(P)
+    ok = allowed_pages(P, sel)
+    fails = []
+    for (i, k), page in sorted(links.items()):
+        if i not in sel and i not in ref:
+            continue
+        e = byid[i]
+        if isinstance(page, str) and page.startswith("error: "):
+            fails.append((i, k, f"converting the comment of {e['kind']} {e['name']} with [[{e['links'][k]}]] failed: {page[7:]}"))
+        elif page is not None and page not in ok:
+            t = byid[e["link_ids"][k]]
+            fails.append((i, k, f"[[{e['links'][k]}]] in the comment of {e['kind']} {e['name']} links to {page}: "
+                                f"no page of a selected entity ({t['kind']} {t['name']} is "
+                                f"{'selected' if t['id'] in sel else 'not selected'})"))
+    return fails
+
+
 # --------------------------------------------------------------------------- implementation side (objects)
 
 def build_keys(P):
@@ -154,8 +227,9 @@ def key_of(obj, lst, parent):
     return obj.name
 
 
-def walk_objects(proj, keys, rep_unknown):
-    """-> list of (id, list name, visible, permission, documented, meta display) reachable through the lists"""
+def walk_objects(proj, keys, rep_unknown, objs=None):
+    """-> list of (id, list name, visible, permission, documented, meta display) reachable through the lists;
+    `objs` (optional dict) receives id -> object"""
     out = []
     seen = set()
 
@@ -168,6 +242,8 @@ def walk_objects(proj, keys, rep_unknown):
         if (i, lst) in seen:
             return
         seen.add((i, lst))
+        if objs is not None:
+            objs.setdefault(i, obj)
         md = getattr(getattr(obj, "meta", None), "display", None)
         out.append((i, lst, bool(getattr(obj, "visible", False)), getattr(obj, "permission", None),
                     bool(getattr(obj, "doc_list", [])), md))
@@ -204,12 +280,14 @@ def impl_prune(ford, P, d: Path):
     keys = build_keys(P)
     sf.namelist = sf.NameSelector()
     unknown = []
+    objs = {}
     try:
         with common.quiet():
             proj = Project(make_settings(ford, d, P["config"]))
-            pre = walk_objects(proj, keys, unknown)
+            pre = walk_objects(proj, keys, unknown, objs)
             proj.correlate()
             post = walk_objects(proj, keys, unknown)
+            links = impl_links(proj, objs, P)
     except Exception as e:  # noqa
         return {"error": f"{type(e).__name__}: {e}"}
     pages = []
@@ -221,7 +299,51 @@ def impl_prune(ford, P, d: Path):
             else:
                 pages.append(i)
     pages += [keys[f.name] for f in proj.files]
-    return {"pre": pre, "post": post, "pages": sorted(pages), "unknown": unknown}
+    return {"pre": pre, "post": post, "pages": sorted(pages), "unknown": unknown, "links": links}
+
+
+LK_RE = re.compile(r"""lk(\d+)x(\d+) <a(?:\s+href=["']([^"']*)["'])?\s*>([^<]*)</a>""")
+
+
+def href_page(href, rel_dir):
+    """page (path below the output directory, no fragment) an href written on a page in `rel_dir` names"""
+    return os.path.normpath(os.path.join(rel_dir, href.split("#")[0]))
+
+
+def impl_links(proj, objs, P):
+    """Convert the doc comment of every entity that carries `[[...]]` links exactly as `FortranBase.markdown`
+    does (the project's Markdown instance with the FORD link extension, the entity as context).
+    -> {(ctx id, k): page | None | 'error: ...'}"""
+    import textwrap
+
+    from ford._markdown import MetaMarkdown
+
+    byid = G.index(P)
+    md = None
+    out = {}
+    for i in sorted(byid):
+        e = byid[i]
+        if not e.get("links"):
+            continue
+        obj = objs.get(i)
+        if obj is None:
+            continue
+        if md is None:
+            md = MetaMarkdown(project=proj)
+        try:
+            html = md.reset().convert(textwrap.dedent("\n".join(obj.doc_list)), context=obj)
+        except Exception as ex:  # noqa
+            for k in range(len(e["links"])):
+                out[(i, k)] = f"error: {type(ex).__name__}: {ex}"
+            continue
+        got = {}
+        for m in LK_RE.finditer(html):
+            if int(m.group(1)) == i:
+                # links are written relative to a sibling of the page directories
+                got[int(m.group(2))] = None if m.group(3) is None else href_page(m.group(3), "x")
+        for k in range(len(e["links"])):
+            out[(i, k)] = got.get(k, "error: link not found in the converted comment")
+    return out
 
 
 def check_generator_assumptions(P, pre):
@@ -261,7 +383,56 @@ def model_batch(drv, Ps, variant):
             r = r + [""] * (5 - len(r))
             out.append({"survivors": parse_ids(r[1]), "visible": parse_ids(r[2]), "pages": parse_ids(r[3]),
                         "shown": parse_ids(r[4])})
+    # the `[[name]]` links of the doc comments of the survivors, resolved by the model: as the link extension
+    # is ("asis") and with the test that the target's page is written ("repaired")
+    for lv in LINK_VARIANTS:
+        reqs = [G.encode_links_request(P, variant, checks_page=(lv == "repaired")) for P in Ps]
+        for P, m, r in zip(Ps, out, drv.batch(reqs)):
+            if m is None:
+                continue
+            m.setdefault("links", {})
+            if r[0] != "ok":
+                m["links"][lv] = None
+                continue
+            r = r + [""] * (3 - len(r))
+            m["links"][lv] = model_links(P, r[1])
     return out
+
+
+LINK_VARIANTS = ("asis", "repaired")
+
+
+def model_links(P, field):
+    """`ctx:name:target:page:viaRef` / `ctx:name:-` entries -> {(ctx, k): (page path | None, viaRef)}"""
+    byid = G.index(P)
+    per_ctx = {}
+    for ent in [x for x in field.split(",") if x]:
+        f = ent.split(":")
+        per_ctx.setdefault(int(f[0]), []).append(f)
+    out = {}
+    for i, fs in per_ctx.items():
+        # the model lists the bare `[[name]]` links of one comment in the order they were given
+        for k, f in zip(G.plain_links(byid[i]), fs):
+            if f[2] == "-":
+                out[(i, k)] = (None, False)
+            else:
+                out[(i, k)] = (page_of(byid[int(f[3])]), f[4] == "1")
+    return out
+
+
+def link_observations(P, im, post_ids):
+    """what the implementation did with the bare `[[name]]` links written in the comments of the surviving
+    entities (the qualified forms are judged by the oracle only)"""
+    alive = set(post_ids)
+    byid = G.index(P)
+    return {k: v for k, v in im["links"].items() if k[0] in alive and k[1] in G.plain_links(byid[k[0]])}
+
+
+def links_agree(m, lv, obs_links):
+    ml = (m.get("links") or {}).get(lv)
+    if ml is None:
+        return False
+    return {k: v[0] for k, v in ml.items()} == obs_links
 
 
 def features(P):
@@ -370,16 +541,52 @@ def oracle_objects(P, post_ids, pages):
     return fails
 
 
-def prune_stream(ford, drv, rng, n, rep, stats, d):
+def link_features(P, links, sel, stats):
+    """histogram: where links were written and what became of them"""
+    byid = G.index(P)
+    h = stats.setdefault("link_hist", {})
+    for (i, k), page in links.items():
+        e = byid[i]
+        t = byid[e["link_ids"][k]]
+        shown = "shown" if i in sel else "hidden"
+        tsel = "selected" if t["id"] in sel else "unselected"
+        res = "error" if isinstance(page, str) and page.startswith("error: ") else ("linked" if page else "no-link")
+        for key in (f"{shown}-comment/{tsel}-target/{res}", f"ctx={e['kind']}", f"target={t['kind']}",
+                    f"form={e['link_forms'][k]}"):
+            h[key] = h.get(key, 0) + 1
+        if any(m for a in chain_of(byid, e) for m, _ in a.get("uses") or [] if in_module(byid, t, m)):
+            h["target-through-use"] = h.get("target-through-use", 0) + 1
+    stats["links"] = stats.get("links", 0) + len(links)
+
+
+def chain_of(byid, e):
+    out = []
+    while e is not None:
+        out.append(e)
+        e = byid.get(e["_parent"])
+    return out
+
+
+def in_module(byid, t, mod):
+    return any(a["kind"] == "module" and a["name"] == mod for a in chain_of(byid, t)[1:])
+
+
+def prune_stream(ford, drv, rng, n, rep, stats, d, lrng=None):
     Ps = []
     for k in range(n):
         risky = (k % 4 == 3)
         Ps.append(G.gen_project(rng, size=1.0 if k % 3 else 1.6, risky=risky))
+    if lrng is not None:
+        for P in Ps:
+            G.decorate(P, lrng)
     m_asis = model_batch(drv, Ps, "asis")
     m_rep = model_batch(drv, Ps, "repaired")
     agree = {"asis": 0, "repaired": 0}
     differ = {"asis": [], "repaired": []}
     discriminating = 0
+    lagree = {(a, b): 0 for a in ("asis", "repaired") for b in LINK_VARIANTS}
+    ldiffer = {(a, b): [] for a in ("asis", "repaired") for b in LINK_VARIANTS}
+    ldiscr = 0
     for k, P in enumerate(Ps):
         im = impl_prune(ford, P, d)
         if "error" in im:
@@ -396,6 +603,7 @@ def prune_stream(ford, drv, rng, n, rep, stats, d):
         post_ids = sorted({i for i, *_ in im["post"]})
         vis = sorted({i for i, lst, v, *_ in im["post"] if v})
         obs = {"survivors": post_ids, "visible": vis, "pages": im["pages"]}
+        obs_links = link_observations(P, im, post_ids)
         stats["entities"] += len(G.index(P))
         stats["dropped"] += len(G.index(P)) - len(post_ids)
         if len(post_ids) < len(G.index(P)):
@@ -417,12 +625,36 @@ def prune_stream(ford, drv, rng, n, rep, stats, d):
                 differ[name].append({"stream": "prune", "case": k, "variant": name, "config": P["config"],
                                      "model": {x: sorted(m[x]) for x in obs}, "impl": obs,
                                      "files": G.render_project(P), "project": G.strip(P)})
+            # links: the model of this display variant x each variant of the link extension
+            for lv in LINK_VARIANTS:
+                if links_agree(m, lv, obs_links):
+                    lagree[(name, lv)] += 1
+                elif len(ldiffer[(name, lv)]) < 3:
+                    ml = {f"{a}x{b}": v[0] for (a, b), v in sorted(((m.get("links") or {}).get(lv) or {}).items())}
+                    il = {f"{a}x{b}": v for (a, b), v in sorted(obs_links.items())}
+                    ldiffer[(name, lv)].append({
+                        "stream": "prune", "case": k, "variant": name, "link_variant": lv, "config": P["config"],
+                        "links_differ [model, implementation]": {x: [ml.get(x, "absent"), il.get(x, "absent")]
+                                                                 for x in sorted(set(ml) | set(il)) if ml.get(x, "absent") != il.get(x, "absent")},
+                        "files": G.render_project(P), "project": G.strip(P)})
+            if (m.get("links") or {}).get("asis") != (m.get("links") or {}).get("repaired") and name == "asis":
+                ldiscr += 1
         # property oracle on the real objects
         for eid, why in oracle_objects(P, post_ids, im["pages"]):
             cls = classify(P, eid, why)
             stats["oracle_failures"] += 1
             rep.failing_input({"stream": "prune", "case": k, "why": why, "config": P["config"],
                                "files": G.render_project(P), "entity": eid}, cls)
+        # ... and on the links the real Markdown extension produced
+        sel, ref = spec_selected(P)
+        link_features(P, im["links"], sel, stats)
+        for ctx, lk, why in oracle_links(P, im["links"], sel, ref):
+            page = im["links"][(ctx, lk)]
+            cls = None if str(page).startswith("error: ") else classify_link(P, ctx, lk, page, sel, ref)
+            stats["oracle_failures"] += 1
+            stats["link_oracle_failures"] = stats.get("link_oracle_failures", 0) + 1
+            rep.failing_input({"stream": "prune", "case": k, "why": why, "config": P["config"],
+                               "files": G.render_project(P), "entity": ctx, "link": lk}, cls)
     total = len(Ps)
     stats["prune_cases"] = total
     stats["discriminating"] = discriminating
@@ -437,6 +669,21 @@ def prune_stream(ford, drv, rng, n, rep, stats, d):
             rep.tie_broken(f"correspondence prune: model ({better}) and implementation differ on case {dcase['case']}",
                            dcase)
         stats["agree"] = agree
+    # which link extension is this: with or without the test that the target's page is written
+    stats["link_discriminating"] = ldiscr
+    lvariant = None
+    if variant is not None:
+        if lagree[(variant, "repaired")] == total and (ldiscr > 0 or lagree[(variant, "asis")] < total):
+            lvariant = "repaired"
+        elif lagree[(variant, "asis")] == total:
+            lvariant = "asis"
+        else:
+            better = "asis" if lagree[(variant, "asis")] >= lagree[(variant, "repaired")] else "repaired"
+            for dcase in ldiffer[(variant, better)][:3]:
+                rep.tie_broken(f"correspondence prune: the links the model ({variant}, link extension {better}) resolves and "
+                               f"the links the implementation made differ on case {dcase['case']}", dcase)
+            stats["link_agree"] = {f"{a}/{b}": v for (a, b), v in lagree.items()}
+    stats["link_variant"] = lvariant
     return variant
 
 
@@ -469,11 +716,12 @@ def run_e2e_case(args):
     pf = e2e.write_project(root, files, opts, text="Project text.\n")
     res = e2e.run_inprocess(pf)
     out = {"rc": res["rc"], "exc": res.get("exc"), "trace": res.get("trace", "")[-1500:], "tracers": {}, "pages": [],
-           "bad_hrefs": []}
+           "bad_hrefs": [], "links": []}
     if res["rc"] != 0 or res["out"] is None:
         return out
     outdir = Path(res["out"])
     existing = set()
+    seen_links = {}
     for p in outdir.rglob("*.html"):
         existing.add(str(p.relative_to(outdir)))
     for rel in sorted(existing):
@@ -484,6 +732,14 @@ def run_e2e_case(args):
         text = LISTING_RE.sub("", text)
         ids = sorted({int(x) for x in TR_RE.findall(text)})
         out["tracers"][rel] = ids
+        # the `[[name]]` links of the generated comments carry a marker word: they are attributed to the
+        # comment they were written in and judged one by one; all other hrefs are checked below
+        for m in LK_RE.finditer(text):
+            tgt = None if m.group(3) is None else href_page(m.group(3), os.path.dirname(rel))
+            key = (int(m.group(1)), int(m.group(2)), tgt)
+            if key not in seen_links:
+                seen_links[key] = rel
+        text = LK_RE.sub("", text)
         top = rel.split("/")[0]
         if top in ("type", "proc", "interface", "module", "program", "sourcefile", "blockdata", "namelist"):
             out["pages"].append(rel)
@@ -513,6 +769,7 @@ def run_e2e_case(args):
     else:
         out["no_search_db"] = True
     # the raw source copies legitimately contain every comment
+    out["links"] = [[i, k, tgt, rel, tgt is None or tgt in existing] for (i, k, tgt), rel in sorted(seen_links.items(), key=str)]
     return out
 
 
@@ -524,7 +781,7 @@ def page_of(e):
     return f"{d}/{name}.html"
 
 
-def e2e_stream(ford, drv, rng, n, rep, stats, d, variant, graphs, workers):
+def e2e_stream(ford, drv, rng, n, rep, stats, d, variant, graphs, workers, lrng=None):
     import multiprocessing as mp
 
     Ps = []
@@ -534,6 +791,9 @@ def e2e_stream(ford, drv, rng, n, rep, stats, d, variant, graphs, workers):
         if not P["config"]["display"]:
             P["config"]["display"] = ["none"]
         Ps.append(P)
+    if lrng is not None:
+        for P in Ps:
+            G.decorate(P, lrng)
     model = model_batch(drv, Ps, variant or "asis")
     # graphs are expensive: all cases in the thorough tier, every second case in the quick tier
     jobs = [(G.strip(P), str(d / f"e{k}"), graphs or k % 2 == 1, k % 2 == 0) for k, P in enumerate(Ps)]
@@ -612,6 +872,29 @@ def e2e_stream(ford, drv, rng, n, rep, stats, d, variant, graphs, workers):
                 fails.append((i, f"page {pg} exists for unselected {e['kind']} {e['name']}"))
         for rel, h in res["bad_hrefs"]:
             fails.append((None, f"{rel} links to {h}, which does not exist"))
+        # links written in the generated comments, wherever the comment was rendered
+        ok_pages = allowed_pages(P, sel, files=incl_src)
+        lfails = []
+        stats["e2e_links_seen"] = stats.get("e2e_links_seen", 0) + len(res["links"])
+        for i, lk, tgt, rel, exists in res["links"]:
+            e = byid[i]
+            t = byid[e["link_ids"][lk]]
+            if i not in sel and i not in ref:
+                continue  # the comment itself should not be there: reported by the tracer oracle above
+            if tgt is not None and (tgt not in ok_pages or not exists):
+                lfails.append((i, lk, tgt, f"[[{e['links'][lk]}]] in the comment of {e['kind']} {e['name']}, rendered on {rel}, "
+                                           f"links to {tgt}: " + ("no page of a selected entity" if tgt not in ok_pages else "the page was not written")
+                                           + f" ({t['kind']} {t['name']} is {'selected' if t['id'] in sel else 'not selected'})"))
+            # correspondence: the model predicts the page for the comments of surviving entities
+            ml = ((mo or {}).get("links") or {}).get(stats.get("link_variant") or "asis")
+            if ml is not None and (i, lk) in ml:
+                want_page = ml[(i, lk)][0]
+                if stats.get("link_variant") == "repaired" and not incl_src and want_page is not None and want_page.startswith("sourcefile/"):
+                    want_page = None  # file pages are not written (`incl_src` is outside the model)
+                if want_page != tgt:
+                    ncorr += 1
+                    rep.tie_broken(f"correspondence e2e: link {lk} of the comment of {e['kind']} {e['name']} points at {tgt} on {rel}, "
+                                   f"the model says {want_page} (case {k})", dict(base, entity=i, link=lk))
         seen_cls = set()
         for eid, why in fails:
             cls = classify(P, eid, why) if eid is not None else None
@@ -620,6 +903,14 @@ def e2e_stream(ford, drv, rng, n, rep, stats, d, variant, graphs, workers):
                 continue
             seen_cls.add((cls, eid))
             rep.failing_input(dict(base, why=why, entity=eid), cls)
+        for i, lk, tgt, why in lfails:
+            cls = classify_link(P, i, lk, tgt, sel, ref, incl_src=incl_src)
+            stats["oracle_failures"] += 1
+            stats["link_oracle_failures"] = stats.get("link_oracle_failures", 0) + 1
+            if (cls, i, lk) in seen_cls:
+                continue
+            seen_cls.add((cls, i, lk))
+            rep.failing_input(dict(base, why=why, entity=i, link=lk), cls)
     stats["e2e_corr_disagreements"] = ncorr
 
 
@@ -647,6 +938,57 @@ def witness_enum():
     m["children"] = [en]
     f["children"] = [m]
     return {"config": {"display": ["public"], "proc_internals": False, "hide_undoc": False}, "files": [f]}
+
+
+def witness_link_binding():
+    """private procedure bound by a public binding whose comment names it"""
+    g = G.Gen(random.Random(0))
+    f = g.new("file", "public", doc=False)
+    m = g.new("module", "public", default="private")
+    t = g.new("type", "public", explicit=True)
+    b = g.new("boundproc", "public", explicit=True)
+    s = g.new("subroutine", "private", explicit=False)
+    a = g.new("arg", "private", explicit=False)
+    s["children"] = [a]
+    b["refs"] = [s["id"]]
+    b["link_ids"], b["links"], b["link_forms"] = [s["id"]], [s["name"]], ["plain"]
+    t["children"] = [b]
+    m["children"] = [t, s]
+    f["children"] = [m]
+    return {"config": {"display": ["public"], "proc_internals": False, "hide_undoc": False}, "files": [f]}
+
+
+def witness_link_referenced():
+    """private procedure under a public generic interface; its comment names its own dummy argument"""
+    g = G.Gen(random.Random(0))
+    f = g.new("file", "public", doc=False)
+    m = g.new("module", "public", default="private")
+    gi = g.new("generic", "public", explicit=True)
+    s = g.new("subroutine", "private", explicit=False)
+    a = g.new("arg", "private", explicit=False)
+    s["children"] = [a]
+    gi["refs"] = [s["id"]]
+    s["link_ids"], s["links"], s["link_forms"] = [a["id"]], [a["name"]], ["plain"]
+    m["children"] = [gi, s]
+    f["children"] = [m]
+    return {"config": {"display": ["public"], "proc_internals": False, "hide_undoc": False}, "files": [f]}
+
+
+def replay_link_witnesses(ford, rep, d, stats):
+    for fid, P in (("C05-link-to-unselected-bound-procedure", witness_link_binding()),
+                   ("C05-link-inside-unselected-referenced-procedure", witness_link_referenced())):
+        im = impl_prune(ford, P, d)
+        if "error" in im:
+            rep.tie_broken(f"witness {fid}: implementation raised {im['error']}")
+            continue
+        sel, ref = spec_selected(P)
+        fails = oracle_links(P, im["links"], sel, ref)
+        stats["witness_" + fid] = "fails" if fails else "holds"
+        for ctx, lk, why in fails:
+            page = im["links"][(ctx, lk)]
+            cls = None if str(page).startswith("error: ") else classify_link(P, ctx, lk, page, sel, ref)
+            rep.failing_input({"stream": "witness", "finding": fid, "why": why, "config": P["config"],
+                               "files": G.render_project(P), "entity": ctx, "link": lk}, cls)
 
 
 def replay_witnesses(ford, rep, d, variant, stats):
@@ -691,11 +1033,13 @@ def run(tier: str, seed: int, replay: str | None = None) -> int:
     ev_micro, bad_micro = micro_stream(ford, drv, rng, n_micro, rep)
     with common.scratch_dir() as d:
         (d / "p").mkdir()
-        variant = prune_stream(ford, drv, rng, n_prune, rep, stats, d / "p")
+        variant = prune_stream(ford, drv, rng, n_prune, rep, stats, d / "p",
+                               lrng=random.Random(seed * 15485863 + 23))
         replay_witnesses(ford, rep, d / "p", variant, stats)
+        replay_link_witnesses(ford, rep, d / "p", stats)
         t0 = time.time()
         e2e_stream(ford, drv, random.Random(seed * 104729 + 11), n_e2e, rep, stats, d, variant,
-                   graphs=not quick, workers=workers)
+                   graphs=not quick, workers=workers, lrng=random.Random(seed * 32452843 + 29))
         stats["e2e_wall_s"] = round(time.time() - t0, 1)
     rep.coverage.update(
         evaluations=ev_micro + stats.get("prune_cases", 0) + stats["e2e_cases"],
@@ -706,11 +1050,18 @@ def run(tier: str, seed: int, replay: str | None = None) -> int:
         samples=stats["samples"],
         traces_validated_against_impl=ev_micro + stats.get("prune_cases", 0) + stats["e2e_cases"],
         variant_decided=variant,
+        link_variant_decided=stats.get("link_variant"),
+        link_variant_discriminating_cases=stats.get("link_discriminating"),
+        links_resolved_by_implementation=stats.get("links", 0),
+        link_histogram=dict(sorted(stats.get("link_hist", {}).items())),
+        link_oracle_failures=stats.get("link_oracle_failures", 0),
+        e2e_link_occurrences=stats.get("e2e_links_seen", 0),
         variant_discriminating_cases=stats.get("discriminating"),
         entities_generated=stats["entities"],
         entities_removed_by_prune=stats["dropped"],
         oracle_failures=stats["oracle_failures"],
-        correspondence_disagreements=bad_micro + stats.get("e2e_corr_disagreements", 0) + (0 if variant else 1),
+        correspondence_disagreements=bad_micro + stats.get("e2e_corr_disagreements", 0) + (0 if variant else 1)
+        + (0 if stats.get("link_variant") or not variant else 1),
         prune_feature_histogram=dict(sorted(stats["features"].items())),
         e2e_cases=stats["e2e_cases"],
         e2e_graph_cases=stats.get("e2e_graph_cases"),
@@ -722,7 +1073,9 @@ def run(tier: str, seed: int, replay: str | None = None) -> int:
         "permissions are inputs (C04 decides them); the generator spells them explicitly and checks FORD parsed the same",
         "a procedure displayed by a selected binding / generic interface / final procedure counts as part of that entity's description (its doc and dummy arguments may appear there even if the procedure itself is private)",
         "templates (Jinja2), Markdown and the search indexer are on the implementation side only; the model predicts which tracer words occur on the site, not where on a page",
-        "submodules, block data, common blocks, namelists, type extension are not generated",
+        "block data, common blocks, namelists, type extension are not generated",
+        "doc links: names are unique in a generated project (no shadowing between scopes); the Lean model resolves the bare `[[name]]` form, `[[name(entity)]]` and `[[parent:name]]` are generated for the oracle only; links to types declared inside procedures (no URL: FORD raises) are not generated; interface bodies are subroutines",
+        "the model's page test (`checksPage`) stands for `visible` of the page owner; the equivalence is checked by the exact comparison of `visible` flags and page lists",
     ]
     return rep.finish(lean)
 
